@@ -94,17 +94,28 @@ Definition at_capacity (s : pset) (p : N) : bool :=
               end
   | None => false
   end.
-Definition guard_unreserve (s0 : pset) (o : op) : bool :=
+(* the state a handler starts from: k seconds pending, no messages yet (Model.step) *)
+Definition start (s : pset) (k : N) : pset := with_msgs (with_pending s k) [].
+
+(* The guard is the condition under which the un-reservation itself counts a peer in beyond the
+   maximum: at the moment it happens, the peer being un-reserved is (still) reserved, connected, and
+   the slots of its direction are all taken.  For removeReservedPeers that moment is the start of
+   the call (outside reserved-only mode only the first listed peer is processed).  For
+   setReservedPeer it comes after the add phase (addReservedPeers of the new peers, whose
+   allocSlots may connect peers — also the very peer that is un-reserved afterwards — and fill the
+   slots): the guard runs that phase of the model and looks at every state it can end in and at
+   every peer that can come first in the iteration over the peers to remove. *)
+Definition guard_unreserve (s0 : pset) (k : N) (o : op) : bool :=
   negb (ronly s0) &&
   match o with
   | ORemoveReserved (p :: _) => memN p (reserved s0) && at_capacity s0 p
   | OSetReserved ps =>
-    (* something is un-reserved, and either something is reserved first (its allocSlots may connect
-       the very peer that is then un-reserved) or an un-reserved peer is connected in a full direction *)
     let to_remove := filter (fun p => negb (memN p ps)) (reserved s0) in
     let to_insert := filter (fun p => negb (memN p (reserved s0))) ps in
-    negb (match to_remove with [] => true | _ => false end) &&
-    (negb (match to_insert with [] => true | _ => false end) || existsb (at_capacity s0) to_remove)
+    existsb (fun r => match r with
+                      | Ret None s1 => existsb (fun q => memN q (reserved s1) && at_capacity s1 q) to_remove
+                      | _ => false
+                      end) (add_reserved_peers to_insert (start s0 k))
   | _ => false
   end.
 
@@ -173,5 +184,5 @@ Inductive unguarded (v : variant) (s0 : pset) : list (N * op) -> Prop :=
 | ung_nil : unguarded v s0 []
 | ung_step h k o :
     unguarded v s0 h ->
-    (forall s, reachable v s0 h s -> guard_unreserve s o = false) ->
+    (forall s, reachable v s0 h s -> guard_unreserve s k o = false) ->
     unguarded v s0 (h ++ [(k, o)]).
